@@ -10,6 +10,8 @@ def ingressesOf : String → List IngressSt
   | "ftp" => [⟨true, "ftp", true, "app.example.com"⟩]
   | "garbage" => [⟨false, "", false, ""⟩]
   | "nohost" => [⟨true, "https", false, ""⟩]
+  | "nohost-oneslash" => [⟨true, "https", false, ""⟩]                      -- https:/app.example.com: a scheme and a path, no authority
+  | "valid+nohost" => [⟨true, "https", true, "app.example.com"⟩, ⟨true, "http", false, ""⟩]   -- one good ingress does not excuse a hostless one
   | "https+localhost" => [⟨true, "https", true, "app.example.com"⟩, ⟨true, "http", true, "localhost"⟩]
   | "http-localhost-upper" => [⟨true, "http", true, "localhost"⟩]                       -- host names compare case-insensitively
   | "http-localhost-prefix" => [⟨true, "http", true, "localhost.example.com"⟩]
@@ -47,7 +49,7 @@ def handleStart20 (l : Line) : List Verdict :=
     let model := startOk c
     -- Spec: the documented rules, evaluated rule by rule (first failing rule names the violation)
     let rules : List (Bool × String) := [
-      (key == "absent" || key == "ok", "encryption_key"), (ingress != "absent" && ingress != "ftp" && ingress != "garbage" && ingress != "nohost", "ingress"),
+      (key == "absent" || key == "ok", "encryption_key"), (ingress != "absent" && ingress != "ftp" && ingress != "garbage" && ingress != "nohost" && ingress != "nohost-oneslash" && ingress != "valid+nohost", "ingress"),
       (mode == "proxy" || (c.clientId && (jwk == "valid" || (jwk == "absent" && c.clientSecret)) && wellknown == "ok"), "client_settings"),
       (mode != "badmode", "sso_mode"), (!sso || (c.redis && c.ssoCookieName), "sso_store_and_cookie_name"),
       (mode != "proxy" || c.ssoServerUrlParses, "sso_server_url"), (mode != "server" || (c.ssoDomain && c.ssoDefaultRedirectParses), "sso_domain_default_redirect"),
